@@ -91,36 +91,33 @@ def frozen_ctes(df, as_left: bool):
     return list(df.expression.ctes)
 
 
-def observe_lineage(case, session, F):
+def observe_lineage(case, session, F, builder=None):
     """What the Coq model takes as given: per table the (branch, seq) of the CTEs it brings, per join whether both sides
-    have the same branch id, per df-reference the branch id and the `uo` bit, per alias the sequence ids registered."""
-    b = cc.Builder(session, F, case["data"])
+    have the same branch id, per df-reference the branch id and the `uo` bit, per alias the sequence ids registered.
+    `builder`: the Builder that ran the case (its DataFrame objects are the ones observed); a fresh one otherwise."""
+    b = builder or cc.Builder(session, F, case["data"])
     ids = Ids()
-    left = b.df(case["left"])
-    out = {"tables": [], "same_branch": [], "objs": b, "ids": ids, "error": None}
+    out = {"tables": [], "same_branch": [], "known": [], "objs": b, "ids": ids, "error": None}
     try:
+        left = b.df(case["left"])
+        stages = getattr(b, "stages", None) or [left]
         segs = [frozen_ctes(left, True)]
-        cur = left
-        for st in case["steps"]:
+        for i, st in enumerate(case["steps"]):
             r = b.df(st["right"])
             segs.append(frozen_ctes(r, False))
+            cur = stages[i] if i < len(stages) else None
+            if cur is None:
+                # the chain could not be built this far (join() raised): lineage of a join result = lineage of its left side
+                cur = stages[-1]
             out["same_branch"].append(cur.branch_id == r.branch_id)
-            out.setdefault("known", []).append((set(cur.known_uuids), set(r.known_uuids)))
-            # the left object of the next step is the result of this join; lineage of a join result: copy of the left side
-            try:
-                o = b.on(st["on"])
-                cur = cur.join(r, how=st["how"]) if o is None else cur.join(r, on=o, how=st["how"])
-            except Exception:
-                try:
-                    cur = cur.join(r, on=o, how="inner") if o is not None else cur.join(r)
-                except Exception as ex:
-                    out["error"] = f"{type(ex).__name__}"
-                    break
-        for i, seg in enumerate(segs):
+            out["known"].append((set(cur.known_uuids), set(r.known_uuids)))
+        for seg in segs:
             out["tables"].append([(ids(c.args["branch_id"]), ids(c.args["sequence_id"])) for c in seg])
     except Exception as ex:
         out["error"] = f"{type(ex).__name__}: {ex}"
-    out["alias_seq"] = {a: [ids(s) for s in seqs] for a, seqs in session.name_to_sequence_id_mapping.items()}
+    # only ids that occur in this expression can be found by normalize.py; the session-wide registry keeps growing
+    out["alias_seq"] = {a: [ids.m[s] for s in seqs if s in ids.m]
+                        for a, seqs in session.name_to_sequence_id_mapping.items()}
     return out
 
 
